@@ -218,6 +218,41 @@ func runC11(c *Ctx) {
 	}
 	targets := append(append([]EOp(nil), alpha...), EOp{Kind: "save"}, EOp{Kind: "load"})
 	ms := rbacSpec(false, false)
+	// the same faults with a watcher attached: a failing adapter call must still surface as the error of the
+	// call, nothing may be announced, and (auto-save off) rules held only in memory must survive a failed SavePolicy
+	for _, wk := range []string{"plain", "ex"} {
+		for _, op := range []EOp{{Kind: "save"}, {Kind: "load"}, alpha[0], alpha[4]} {
+			for _, autosave := range []bool{true, false} {
+				s := StartCase(c, ms, CaseOpts{Adapter: true, Watcher: wk})
+				if !autosave {
+					s.Do(c, EOp{Kind: "set", Flag: "autosave", On: false})
+				}
+				s.Do(c, EOp{Kind: "add", Sec: "p", PType: "p", Rule: []string{"eve", "data2", "write"}})
+				s.Do(c, EOp{Kind: "add", Sec: "g", PType: "g", Rule: []string{"eve", "admin"}})
+				before := memoryOf(s)
+				nBefore := len(s.W.Log)
+				s.Do(c, EOp{Kind: "arm", What: "adapter", K: 1})
+				obs := s.Do(c, op)
+				s.Do(c, EOp{Kind: "obs", Args: []string{"notif"}})
+				s.Do(c, EOp{Kind: "obs", Args: []string{"pol", "p", "p"}})
+				after := memoryOf(s)
+				c.Evals++
+				hit := s.A.FailAt == 0 // the armed call was reached
+				if hit && !strings.HasPrefix(obs, "err") {
+					c.Direct("an adapter failure was not reported by the call", fmt.Sprintf("watcher=%s autosave=%v call: %s -> %s", wk, autosave, op.Line(), obs))
+				}
+				if strings.HasPrefix(obs, "err") {
+					c.Nontrivial(fmt.Sprintf("watcher-fault|%s|%v|%s", wk, autosave, op.Line()))
+					if before != after {
+						c.Direct("a failed adapter call changed the in-memory state", fmt.Sprintf("watcher=%s autosave=%v call: %s\nbefore: %s\nafter:  %s", wk, autosave, op.Line(), before, after))
+					}
+					if len(s.W.Log) != nBefore {
+						c.Direct("a call that failed was announced to the watcher", fmt.Sprintf("watcher=%s autosave=%v call: %s announced %v", wk, autosave, op.Line(), s.W.Log[nBefore:]))
+					}
+				}
+			}
+		}
+	}
 	// "no partial batch ever becomes visible": batches that are rejected half-way (an old rule is missing, a
 	// rule is already listed), with unchanged pairs in front, from every prefix state; whatever a call reports
 	// as false or as an error must leave rules, index, links and decisions exactly as they were
@@ -389,17 +424,32 @@ func runC15(c *Ctx) {
 		depth = 3
 	}
 	c.Exhaustive = true
-	c.Rule = fmt.Sprintf("all management-call histories of depth <= %d (effective, no-op and failing calls; failing = the first adapter call of the last step is armed to fail in a second pass) x {Watcher, WatcherEx, UpdatableWatcher, WatcherEx+Updatable} x auto-notify on/off, two real enforcers sharing the recording in-memory adapter over a synchronous bus: the notification log (kind and arguments) is compared with the Lean model after every call, and on the implementation: exactly one notification per effective call, none for false/error results and Self* calls, and the peer, reloading on every notification, reaches the originator's decisions; non-trivial = a history with an effective and a no-op call; distinct = (watcher kind, flags, history)", depth)
+	c.Rule = fmt.Sprintf("all management-call histories of depth <= %d (effective, no-op and failing calls; failing = the first adapter call of the last step is armed to fail in a second pass) x {Watcher, WatcherEx, UpdatableWatcher, WatcherEx+Updatable} x auto-notify on/off (and auto-save off for two watcher kinds: announcements do not depend on it), two real enforcers sharing the recording in-memory adapter over a synchronous bus: the notification log (kind and arguments) is compared with the Lean model after every call, and on the implementation: exactly one notification per effective call, none for false/error results and Self* calls, and the peer, reloading on every notification, reaches the originator's decisions; non-trivial = a history with an effective and a no-op call; distinct = (watcher kind, flags, history)", depth)
+	type c15Variant struct {
+		wk               string
+		notify, autosave bool
+	}
+	var variants []c15Variant
 	for _, wk := range []string{"plain", "ex", "upd", "exupd"} {
-		for _, notify := range []bool{true, false} {
-			notify := notify
-			wk := wk
-			cfg := &HistCfg{Name: fmt.Sprintf("%s/notify=%v", wk, notify), MS: rbacSpec(false, false), Opts: CaseOpts{Adapter: true, Watcher: wk},
+		variants = append(variants, c15Variant{wk, true, true}, c15Variant{wk, false, true})
+	}
+	// notification does not depend on auto-save: with it off every effective call is still announced
+	variants = append(variants, c15Variant{"plain", true, false}, c15Variant{"exupd", true, false})
+	for _, v := range variants {
+		{
+			notify := v.notify
+			wk := v.wk
+			autosave := v.autosave
+			cfg := &HistCfg{Name: fmt.Sprintf("%s/notify=%v/autosave=%v", wk, notify, autosave), MS: rbacSpec(false, false), Opts: CaseOpts{Adapter: true, Watcher: wk},
 				Depth: depth, Alphabet: append(mgmtAlphabet(), EOp{Kind: "save"}),
 				Probes: []EOp{{Kind: "obs", Args: []string{"notif"}}},
 			}
 			if !notify {
 				cfg.Setup = []EOp{{Kind: "set", Flag: "autonotify", On: false}}
+				cfg.Depth = depth - 1
+			}
+			if !autosave {
+				cfg.Setup = append(cfg.Setup, EOp{Kind: "set", Flag: "autosave", On: false})
 				cfg.Depth = depth - 1
 			}
 			var peer *casbin.Enforcer
@@ -468,7 +518,7 @@ func runC15(c *Ctx) {
 				if !notify && last.Kind != "save" && n != 0 {
 					c.Direct("a notification was sent although auto-notify is off", fmt.Sprintf("%s: %s", cfg.Name, histText(hist)))
 				}
-				if n > 0 && notify {
+				if n > 0 && notify && autosave {
 					// the peer reloads now (as its callback would) and must agree with the originator
 					calls, log := s.A.Calls, len(s.A.Log)
 					if cb := peerW.Callback(); cb != nil {
